@@ -225,8 +225,10 @@ func bipSignShort(bc bipCtx, aux32 []byte) (string, J) {
 
 func init() {
 	register("nonce", func(c *Ctx) {
-		// ---- real FROST key generation, n = 4, t = 1, deterministic from the seed
-		ids := []party.ID{"a", "b", "c", "d"}
+		// ---- real FROST key generation, n = 6, t = 1, deterministic from the seed. The two-letter ids exist for the signer
+		// sets {a,bc,d} / {a,b,cd}: equal size, equal sorted concatenation (seed C11g: an id list hashed without the
+		// per-id length gives both sets one session hash and, with a stuck random source, one pair of nonces)
+		ids := []party.ID{"a", "b", "c", "d", "bc", "cd"}
 		cfgs := map[party.ID]*frost.Config{}
 		var res sessionResult
 		withSystemRand(mrand.New(mrand.NewSource(c.Seed+77)), func() {
@@ -261,7 +263,7 @@ func init() {
 			return honest
 		}
 		modes := []string{"constant", "zero", "repeating", "honest"}
-		signerSets := [][]party.ID{{"a", "b"}, {"a", "c"}, {"a", "b", "c"}, {"a", "b", "c", "d"}, {"a", "d"}, {"b", "a", "d"}}
+		signerSets := [][]party.ID{{"a", "b"}, {"a", "c"}, {"a", "b", "c"}, {"a", "b", "c", "d"}, {"a", "d"}, {"b", "a", "d"}, {"a", "bc", "d"}, {"a", "b", "cd"}}
 		randCtx := func() frostCtx {
 			fc := frostCtx{cfg: cfgs["a"], signers: signerSets[c.Intn(len(signerSets))], taproot: c.Intn(2) == 0}
 			if c.Intn(4) != 0 {
@@ -299,7 +301,7 @@ func init() {
 		}
 
 		// ---- pairs of contexts differing in exactly one component (or in none)
-		comps := []string{"none", "m", "mlen", "sid", "sidnil", "signers", "variant", "share", "sharebit"}
+		comps := []string{"none", "m", "mlen", "sid", "sidnil", "signers", "variant", "share", "sharebit", "signers-concat"}
 		n2 := c.N / 3
 		for i := 0; i < n2; i++ {
 			mode := modes[i%len(modes)]
@@ -331,6 +333,9 @@ func init() {
 						break
 					}
 				}
+			case "signers-concat":
+				c1.signers = []party.ID{"a", "bc", "d"}
+				c2.signers = []party.ID{"a", "b", "cd"}
 			case "variant":
 				c2.taproot = !c1.taproot
 			case "share":
